@@ -153,6 +153,8 @@ def eval_adverb_each_left(f, a, b, backend):
         Examples: 1,:\[2 3 4]  -->  [[1 2] [1 3] [1 4]]
                   1,:/[2 3 4]  -->  [[2 1] [3 1] [4 1]]
     """
+    if is_atom(b) and not is_empty(b):
+        return f(a,b)
     b = backend.str_to_chr_arr(b) if isinstance(b,str) else b
     return backend.kg_asarray([f(a,x) for x in b])
 
@@ -161,6 +163,8 @@ def eval_adverb_each_right(f, a, b, backend):
     """
     see: eval_dyad_adverb_each_left
     """
+    if is_atom(b) and not is_empty(b):
+        return f(b,a)
     b = backend.str_to_chr_arr(b) if isinstance(b,str) else b
     return backend.kg_asarray([f(x,a) for x in b])
 
